@@ -62,6 +62,7 @@ inductive Err
   | badRange   -- "read_bytes_at_until called with range.end < range.start"
   | noDelim    -- "Could not find delimiter"
   | source     -- the error returned by the byte source
+  | discarded  -- `Err(())` of the `ReadRef` impls in shared.rs, which drop the error of the `FileContents` method
 deriving Repr, DecidableEq
 
 inductive Out (α : Type)
